@@ -95,18 +95,54 @@ static std::string obj_name(const void* p) {
     for (int i = 0; i < 4; i++) { if (p == &g_A[i]) return "A#" + std::to_string(i); if (p == &g_B[i]) return "B#" + std::to_string(i); }
     return ptr_name(p);
 }
+// The user's equality / copy functions are arbitrary C functions: the adaptors must hand every call through verbatim (same two
+// addresses in the same order, result judged by != 0). So the functions come in families whose result is NOT implied by the
+// addresses or by structural equality: an adaptor that answers on its own for some relationship between the arguments
+// (identical addresses, swapped order, truncated result) changes the verdict for at least one member.
+enum { CM_STRUCT, CM_NONREFLEXIVE, CM_IDENTITY, CM_ORDERED, CM_NEVER, CM_ALWAYS, CM_N };
+static const char* CM_NAME[] = { "structural", "nonreflexive", "identity", "ordered", "never", "always" };
+enum { CP_MEMCPY, CP_XOR, CP_N };
+static const char* CP_NAME[] = { "memcpy", "xor" };
+static_assert(sizeof(TA) == 8 && sizeof(TB) == 8, "object pool types are 8 bytes");
+static bool g_viaC = false;                              // tallies below are taken in the C execution only
+static uint64_t g_cmp_tally[CM_N][2][2];                 // [mode][same address][judged equal]
+static uint64_t g_cpy_tally[CP_N][2];                    // [mode][dst == src]
+static bool obj_invalid(int ot, const void* p) { return ot == OT_B ? ((const TB*) p)->s[0] == 0 : ((const TA*) p)->v[0] < 0; }     // object #3 of either pool
+static int eq_generic(int ot, int mode, const void* a, const void* b) {
+    bool st = memcmp(a, b, 8) == 0;
+    int yes = ot == OT_B ? -1 : 7;                       // "true" is any non-zero int
+    int r;
+    switch (mode) {
+    case CM_STRUCT: r = st ? yes : 0; break;
+    case CM_NONREFLEXIVE: r = (st && !obj_invalid(ot, a) && !obj_invalid(ot, b)) ? yes : 0; break;   // like a struct holding a NaN: an invalid object equals nothing, not even itself
+    case CM_IDENTITY: r = a == b ? yes : 0; break;                                                  // equal content at another address is another object
+    case CM_ORDERED: r = memcmp(a, b, 8) <= 0 ? yes : 0; break;                                     // "expected is a lower bound": not symmetric
+    case CM_NEVER: r = 0; break;
+    default: r = 256; break;                                                                        // non-zero with a zero low byte
+    }
+    if (g_viaC) g_cmp_tally[mode][a == b][r != 0]++;
+    return r;
+}
+static void cpy_generic(int mode, void* d, const void* s) {
+    if (g_viaC) g_cpy_tally[mode][d == s]++;
+    unsigned char* D = (unsigned char*) d; const unsigned char* S = (const unsigned char*) s;
+    if (mode == CP_MEMCPY) { if (d != s) memcpy(d, s, 8); return; }
+    for (int i = 0; i < 8; i++) D[i] = (unsigned char) (S[i] ^ 0x5A);                                // a copier that converts: it has an effect even when dst == src
+}
 extern "C" {
-static int eqA(const void* a, const void* b) { return memcmp(a, b, sizeof(TA)) == 0 ? 7 : 0; }          // "true" is any non-zero int
-static int eqB(const void* a, const void* b) { return memcmp(a, b, sizeof(TB)) == 0 ? -1 : 0; }
+#define DEF_EQ(ot, mode) static int eq_##ot##_##mode(const void* a, const void* b) { return eq_generic(ot, mode, a, b); }
+DEF_EQ(0, 0) DEF_EQ(0, 1) DEF_EQ(0, 2) DEF_EQ(0, 3) DEF_EQ(0, 4) DEF_EQ(0, 5)
+DEF_EQ(1, 0) DEF_EQ(1, 1) DEF_EQ(1, 2) DEF_EQ(1, 3) DEF_EQ(1, 4) DEF_EQ(1, 5)
+static void cpy_memcpy(void* d, const void* s) { cpy_generic(CP_MEMCPY, d, s); }
+static void cpy_xor(void* d, const void* s) { cpy_generic(CP_XOR, d, s); }
 static const char* strA(const void* a) { static char buf[64]; const TA* x = (const TA*) a; snprintf(buf, sizeof buf, "A{%d,%d}", x->v[0], x->v[1]); return buf; }
 static const char* strB(const void* a) { static char buf[64]; const TB* x = (const TB*) a; snprintf(buf, sizeof buf, "B{%.8s}", x->s); return buf; }
-static void cpyA(void* d, const void* s) { memcpy(d, s, sizeof(TA)); }
-static void cpyB(void* d, const void* s) { memcpy(d, s, sizeof(TB)); }
 }
 typedef int (*eq_fn)(const void*, const void*);
 typedef const char* (*str_fn)(const void*);
 typedef void (*cpy_fn)(void*, const void*);
-static eq_fn EQ[] = { eqA, eqB }; static str_fn STR[] = { strA, strB }; static cpy_fn CPY[] = { cpyA, cpyB };
+static eq_fn EQ[2][CM_N] = { { eq_0_0, eq_0_1, eq_0_2, eq_0_3, eq_0_4, eq_0_5 }, { eq_1_0, eq_1_1, eq_1_2, eq_1_3, eq_1_4, eq_1_5 } };
+static str_fn STR[] = { strA, strB }; static cpy_fn CPY[CP_N] = { cpy_memcpy, cpy_xor };
 struct CmpCpp : public MockNamedValueComparator {
     eq_fn eq; str_fn str;
     bool isEqual(const void* a, const void* b) override { return eq(a, b) != 0; }
@@ -116,10 +152,11 @@ struct CpyCpp : public MockNamedValueCopier {
     cpy_fn cp;
     void copy(void* d, const void* s) override { cp(d, s); }
 };
-static CmpCpp g_cmp[2]; static CpyCpp g_cpy[2];
+static CmpCpp g_cmp[2][CM_N]; static CpyCpp g_cpy[CP_N];
 
 enum { OUT_BUFS = 3, OUT_SIZE = 16 };
 static unsigned char g_out[OUT_BUFS][OUT_SIZE];
+static const void* out_src(int ot, int oi) { return oi < 0 ? (const void*) g_out[(-1 - oi) % OUT_BUFS] : obj_of(ot, oi); }
 
 // ---------------------------------------------------------------- scenario model
 static const char* SCOPE[] = { "", "s1", "s2" };
@@ -132,7 +169,7 @@ struct Param {
     std::string name;
     Val v;                 // P_IN
     int mi = 0;            // expected P_OUT_RAW: index into Scenario::mems
-    int ot = 0, oi = 0;    // typed output: type index (+ object index on the expected side)
+    int ot = 0, oi = 0;    // typed output: type index (+ object index on the expected side; -1-b = the object lives in receiving buffer b)
     int buf = 0;           // actual output: which g_out buffer receives
 };
 enum { G_RETVAL, G_HAS, G_TYPED, G_ORDEFAULT };
@@ -151,6 +188,7 @@ struct Stmt {
     std::vector<Getter> getters;
     Val dval; bool dconst = false; // S_SETDATA
     int ot = 0;                    // S_INSTALL_*
+    int fm = 0;                    // S_INSTALL_CMP: member of the equality-function family (CM_*), S_INSTALL_CPY: of the copy-function family (CP_*)
     int crash = 0;                 // S_CRASH: 1 = crashOnFailure(1) immediately followed by crashOnFailure(0)
 };
 struct Scenario {
@@ -158,7 +196,7 @@ struct Scenario {
     std::vector<std::string> mems;
     std::vector<Stmt> stmts;
     bool ignoredPossible = false;
-    const char* key_override = nullptr;    // the D19 table uses its own key family
+    std::string key_override;              // enumerated tables with their own key family (D19 table, adaptor table)
 };
 
 static std::string val_str(const Scenario& sc, const Val& v) {
@@ -188,7 +226,7 @@ static std::string stmt_str(const Scenario& sc, const Stmt& st) {
         for (const Param& p : st.ps) {
             if (p.kind == P_IN) s += ".with(" + p.name + "=" + val_str(sc, p.v) + ")";
             else if (p.kind == P_OUT_RAW) s += ".outReturning(" + p.name + "," + vf::hexbytes(sc.mems[p.mi].data(), sc.mems[p.mi].size()) + ")";
-            else if (p.kind == P_OUT_TYPED) s += ".outOfTypeReturning(" + std::string(OT_NAME[p.ot]) + "," + p.name + ",#" + std::to_string(p.oi) + ")";
+            else if (p.kind == P_OUT_TYPED) s += ".outOfTypeReturning(" + std::string(OT_NAME[p.ot]) + "," + p.name + "," + (p.oi < 0 ? "buf" + std::to_string((-1 - p.oi) % OUT_BUFS) : "#" + std::to_string(p.oi)) + ")";
             else s += ".unmodifiedOut(" + p.name + ")";
         }
         if (st.ignoreOtherParams) s += ".ignoreOtherParameters()";
@@ -205,7 +243,7 @@ static std::string stmt_str(const Scenario& sc, const Stmt& st) {
         break;
     case S_SETDATA: s += std::string(st.dconst ? "setDataConst(" : "setData(") + st.fn + "," + val_str(sc, st.dval) + ")"; break;
     case S_GETDATA: s += "getData(" + st.fn + ")"; break;
-    case S_INSTALL_CMP: case S_INSTALL_CPY: s += std::string(SK_NAME[st.k]) + "(" + OT_NAME[st.ot] + ")"; break;
+    case S_INSTALL_CMP: case S_INSTALL_CPY: s += std::string(SK_NAME[st.k]) + "(" + OT_NAME[st.ot] + "," + (st.k == S_INSTALL_CMP ? CM_NAME[st.fm] : CP_NAME[st.fm]) + ")"; break;
     case S_CRASH: s += st.crash ? "crashOnFailure(1);crashOnFailure(0)" : "crashOnFailure(0)"; break;
     default: s += std::string(SK_NAME[st.k]) + "()"; break;
     }
@@ -283,7 +321,7 @@ static void log_outs_of(int i, const Stmt& st) { for (const Param& p : st.ps) if
 static MockExpectedCall& cpp_exp_param(MockExpectedCall& e, const Scenario& sc, const Param& p) {
     const char* n = p.name.c_str();
     if (p.kind == P_OUT_RAW) return e.withOutputParameterReturning(n, sc.mems[p.mi].data(), sc.mems[p.mi].size());
-    if (p.kind == P_OUT_TYPED) return e.withOutputParameterOfTypeReturning(OT_NAME[p.ot], n, obj_of(p.ot, p.oi));
+    if (p.kind == P_OUT_TYPED) return e.withOutputParameterOfTypeReturning(OT_NAME[p.ot], n, out_src(p.ot, p.oi));
     if (p.kind == P_OUT_UNMODIFIED) return e.withUnmodifiedOutputParameter(n);
     const Val& v = p.v;
     switch (v.t) {
@@ -452,8 +490,8 @@ static void cpp_stmt(const Scenario& sc, const Stmt& st, int i) {
     case S_CHECK: m.checkExpectations(); break;
     case S_CLEAR: m.clear(); break;
     case S_LEFT: logev(i, "left", SCOPE[st.scope], f_i(m.expectedCallsLeft() ? 1 : 0)); break;
-    case S_INSTALL_CMP: m.installComparator(OT_NAME[st.ot], g_cmp[st.ot]); break;
-    case S_INSTALL_CPY: m.installCopier(OT_NAME[st.ot], g_cpy[st.ot]); break;
+    case S_INSTALL_CMP: m.installComparator(OT_NAME[st.ot], g_cmp[st.ot][st.fm]); break;
+    case S_INSTALL_CPY: m.installCopier(OT_NAME[st.ot], g_cpy[st.fm]); break;
     case S_REMOVE_ALL: m.removeAllComparatorsAndCopiers(); break;
     case S_CRASH: if (st.crash) m.crashOnFailure(true); mock(SCOPE[st.scope]).crashOnFailure(false); break;
     }
@@ -531,7 +569,7 @@ static MockSupport_c* c_entry(const Stmt& st) { return (st.scope == 0 && st.entr
 static MockExpectedCall_c* c_exp_param(MockExpectedCall_c* E, const Scenario& sc, const Param& p) {
     const char* n = p.name.c_str();
     if (p.kind == P_OUT_RAW) return EXPC(withOutputParameterReturning)(n, sc.mems[p.mi].data(), sc.mems[p.mi].size());
-    if (p.kind == P_OUT_TYPED) return EXPC(withOutputParameterOfTypeReturning)(OT_NAME[p.ot], n, obj_of(p.ot, p.oi));
+    if (p.kind == P_OUT_TYPED) return EXPC(withOutputParameterOfTypeReturning)(OT_NAME[p.ot], n, out_src(p.ot, p.oi));
     if (p.kind == P_OUT_UNMODIFIED) return EXPC(withUnmodifiedOutputParameter)(n);
     const Val& v = p.v;
     switch (v.t) {
@@ -671,8 +709,8 @@ static void c_stmt(const Scenario& sc, const Stmt& st, int i) {
     case S_CHECK: SUP(checkExpectations)(); break;
     case S_CLEAR: SUP(clear)(); break;
     case S_LEFT: logev(i, "left", SCOPE[st.scope], f_i(SUP(expectedCallsLeft)() != 0 ? 1 : 0)); break;
-    case S_INSTALL_CMP: SUP(installComparator)(OT_NAME[st.ot], EQ[st.ot], STR[st.ot]); break;
-    case S_INSTALL_CPY: SUP(installCopier)(OT_NAME[st.ot], CPY[st.ot]); break;
+    case S_INSTALL_CMP: SUP(installComparator)(OT_NAME[st.ot], EQ[st.ot][st.fm], STR[st.ot]); break;
+    case S_INSTALL_CPY: SUP(installCopier)(OT_NAME[st.ot], CPY[st.fm]); break;
     case S_REMOVE_ALL: SUP(removeAllComparatorsAndCopiers)(); break;
     case S_CRASH: if (st.crash) SUP(crashOnFailure)(1); S = c_entry(st); SUP(crashOnFailure)(0); break;
     }
@@ -717,7 +755,7 @@ static std::string mask_summary(const char* text) {
 static Exec run_exec(const Scenario& sc, bool viaC) {
     Exec x;
     memset(g_out, 0xEE, sizeof g_out);
-    g_sc = &sc; g_x = &x;
+    g_sc = &sc; g_x = &x; g_viaC = viaC;
     {
         TestTestingFixture fx;
         fx.setTestFunction(viaC ? body_c : body_cpp);
@@ -734,7 +772,7 @@ static Exec run_exec(const Scenario& sc, bool viaC) {
     logev(P, "left", "after-clear", f_i(mock("").expectedCallsLeft() ? 1 : 0));
     logev(P, "data", "after-clear", fmt_named(mock("").getData("d0")));
     mock("").clear(); mock("").removeAllComparatorsAndCopiers();
-    g_sc = nullptr; g_x = nullptr;
+    g_sc = nullptr; g_x = nullptr; g_viaC = false;
     return x;
 }
 
@@ -825,7 +863,7 @@ static bool compare_execs(vf::Ctx& c, const Scenario& sc, const Exec& cpp, const
         // the repaired defect D19 has exactly this shape: its enumerated table gets the short key family (random scenarios keep the generic key,
         // an ignore/disable statement somewhere in a scenario does not prove that this call was the ignored one)
         const std::string d19 = "verdict:cpp-fails-first:getter-type-mismatch:at=actual:support.typed.";
-        if (sc.key_override && key.compare(0, d19.size(), d19) == 0 && !is_intlike_name(key.substr(d19.size()))) key = "support-getter-after-ignored-call:typed." + key.substr(d19.size());
+        if (sc.key_override == "support-getter-after-ignored-call:" && key.compare(0, d19.size(), d19) == 0 && !is_intlike_name(key.substr(d19.size()))) key = "support-getter-after-ignored-call:typed." + key.substr(d19.size());
         detail = "C++: failures=" + std::to_string(cpp.failures) + " class=" + mp + " events=" + std::to_string(cpp.ev.size()) + "; C: failures=" + std::to_string(cc.failures) + " class=" + mc + " events=" + std::to_string(cc.ev.size());
         if (k < cpp.ev.size()) detail += "; next C++ event " + ev_str(cpp.ev[k]);
         if (k < cc.ev.size()) detail += "; next C event " + ev_str(cc.ev[k]);
@@ -859,7 +897,7 @@ static bool compare_execs(vf::Ctx& c, const Scenario& sc, const Exec& cpp, const
     } else if (cpp.bodyDone != cc.bodyDone || cpp.tearDone != cc.tearDone) {
         key = "control-flow:completion-flags"; detail = "body/teardown completion differs with equal logs";
     } else return false;
-    if (sc.key_override && key.compare(0, strlen(sc.key_override), sc.key_override) != 0) key = std::string(sc.key_override) + key;
+    if (!sc.key_override.empty() && key.compare(0, sc.key_override.size(), sc.key_override) != 0) key = sc.key_override + key;
     c.violation(key, detail);
     return true;
 }
@@ -875,6 +913,17 @@ static void run_scenario(vf::Ctx& c, const Scenario& sc) {
     if (first) { first = false; for (const std::string& n : g_slot_names) c.count(n, 0); }
     for (size_t i = 0; i < g_slot_hits.size(); i++) if (g_slot_hits[i]) { c.count(g_slot_names[i], g_slot_hits[i]); g_slot_hits[i] = 0; }
     for (int k : g_executed_kinds) c.count(std::string("stmt_executed:") + SK_NAME[k]);
+    // calls that reached the user's C equality / copy functions through the adaptors (C execution), by family member and argument relationship
+    for (int m = 0; m < CM_N; m++) for (int same = 0; same < 2; same++) for (int eq = 0; eq < 2; eq++) if (g_cmp_tally[m][same][eq]) {
+        c.count(std::string("c_equal_fn_call:") + CM_NAME[m] + (same ? ":same-object" : ":distinct-objects") + (eq ? ":equal" : ":unequal"), g_cmp_tally[m][same][eq]);
+        if (same && !eq) c.count("c_equal_fn_same_object_judged_unequal", g_cmp_tally[m][same][eq]);
+        if (!same && eq) c.count("c_equal_fn_distinct_objects_judged_equal", g_cmp_tally[m][same][eq]);
+        g_cmp_tally[m][same][eq] = 0;
+    }
+    for (int m = 0; m < CP_N; m++) for (int same = 0; same < 2; same++) if (g_cpy_tally[m][same]) {
+        c.count(std::string("c_copy_fn_call:") + CP_NAME[m] + (same ? ":dst-is-src" : ":dst-differs"), g_cpy_tally[m][same]);
+        g_cpy_tally[m][same] = 0;
+    }
     c.count("execution_pairs");
     c.count(diverged ? "pairs_diverged" : cpp.failures ? "pairs_agree_failing" : "pairs_agree_passing");
     c.count("verdict_class:" + msgclass(cpp));
@@ -1007,9 +1056,15 @@ static Stmt actual_of(const Plan& pl, vf::Rng& r, Scenario& sc, bool mutate) {
     Stmt s = mk(S_ACTUAL, pl.scope, &r); s.fn = pl.fn;
     for (const Param& e : pl.ps) {
         Param a = e;
-        if (e.kind == P_IN) { if (r.chance(28)) a.v = retype(r, a.v); if (a.v.t == V_DOUBLE) a.v.hasTol = false; }
+        if (e.kind == P_IN) {
+            if (r.chance(28)) a.v = retype(r, a.v);
+            if (a.v.t == V_DOUBLE) a.v.hasTol = false;
+            // by default the actual call hands over the very object of the expectation; sometimes its twin (#0/#1 equal content, #2/#3 not)
+            if (a.v.t == V_OBJ && r.chance(30)) a.v.pi = (a.v.pi & 3) ^ 1;
+        }
         else if (e.kind == P_OUT_UNMODIFIED) a.kind = P_OUT_RAW;
         a.buf = (int) r.below(OUT_BUFS);
+        if (e.kind == P_OUT_TYPED && e.oi < 0 && r.chance(60)) a.buf = (-1 - e.oi) % OUT_BUFS;      // receive into the object that is being returned
         s.ps.push_back(a);
     }
     if (r.chance(12) && s.ps.size() > 1) std::swap(s.ps[0], s.ps[s.ps.size() - 1]);
@@ -1045,8 +1100,8 @@ static void gen_random(vf::Rng& r, Scenario& sc, bool thorough) {
     if (r.chance(6)) { Stmt s = mk(S_CRASH, pickScope(), &r); s.crash = r.chance(50); S.push_back(s); }
     if (r.chance(4)) S.push_back(mk(S_REMOVE_ALL, 0, &r));
     if (useObjs) for (int ot = 0; ot < 2; ot++) {
-        if (r.chance(85)) { Stmt s = mk(S_INSTALL_CMP, r.chance(70) ? 0 : mainScope, &r); s.ot = ot; S.push_back(s); }
-        if (r.chance(80)) { Stmt s = mk(S_INSTALL_CPY, r.chance(70) ? 0 : mainScope, &r); s.ot = ot; S.push_back(s); }
+        if (r.chance(85)) { Stmt s = mk(S_INSTALL_CMP, r.chance(70) ? 0 : mainScope, &r); s.ot = ot; s.fm = r.chance(50) ? CM_STRUCT : 1 + (int) r.below(CM_N - 1); S.push_back(s); }
+        if (r.chance(80)) { Stmt s = mk(S_INSTALL_CPY, r.chance(70) ? 0 : mainScope, &r); s.ot = ot; s.fm = r.chance(65) ? CP_MEMCPY : CP_XOR; S.push_back(s); }
     }
     if (r.chance(15)) { S.push_back(mk(S_STRICT, mainScope, &r)); if (r.chance(30)) S.push_back(mk(S_STRICT, (mainScope + 1) % 3, &r)); }
     auto data_stmt = [&](bool set) {
@@ -1073,7 +1128,7 @@ static void gen_random(vf::Rng& r, Scenario& sc, bool thorough) {
                 Param p; p.name = ONAMES[j];
                 int k = (int) r.below(100);
                 if (k < 55 || (k < 85 && !useObjs && !r.chance(15))) { p.kind = P_OUT_RAW; p.mi = add_mem(sc, gen_bytes(r, OUT_SIZE)); }
-                else if (k < 85) { p.kind = P_OUT_TYPED; p.ot = useObjs ? (int) r.below(2) : (int) r.below(3); p.oi = (int) r.below(4); }
+                else if (k < 85) { p.kind = P_OUT_TYPED; p.ot = useObjs ? (int) r.below(2) : (int) r.below(3); p.oi = (int) r.below(4); if (r.chance(20)) p.oi = -1 - (int) r.below(OUT_BUFS); }
                 else p.kind = P_OUT_UNMODIFIED;
                 pl.ps.push_back(p);
             }
@@ -1117,17 +1172,17 @@ static void sec_random(vf::Ctx& c) {
 }
 
 // ---------------------------------------------------------------- enumerated tables (independent of the seed)
-static std::vector<Scenario> T_FORWARD, T_DATA, T_IGNORED;
+static std::vector<Scenario> T_FORWARD, T_DATA, T_IGNORED, T_ADAPT;
 
 static Val mkint(int t, uint64_t u) { Val v; v.t = t; v.u = u; return v; }
 static Param in_param(const char* name, const Val& v) { Param p; p.kind = P_IN; p.name = name; p.v = v; return p; }
 static Stmt t_expect(int scope, const char* fn, int ecount = -1) { Stmt s = mk(S_EXPECT, scope); s.fn = fn; s.ecount = ecount; return s; }
 static Stmt t_actual(int scope, const char* fn) { Stmt s = mk(S_ACTUAL, scope); s.fn = fn; return s; }
 static Getter t_getter(int level, int kind, int t, const Val* def = nullptr) { Getter g; g.level = level; g.kind = kind; g.t = t; if (def) g.def = *def; else { g.def.t = t; } return g; }
-static void add_installs(Scenario& sc, int scope, bool cmp = true, bool cpy = true) {
+static void add_installs(Scenario& sc, int scope, bool cmp = true, bool cpy = true, int cm = CM_STRUCT, int cp = CP_MEMCPY) {
     for (int ot = 0; ot < 2; ot++) {
-        if (cmp) { Stmt s = mk(S_INSTALL_CMP, scope); s.ot = ot; sc.stmts.push_back(s); }
-        if (cpy) { Stmt s = mk(S_INSTALL_CPY, scope); s.ot = ot; sc.stmts.push_back(s); }
+        if (cmp) { Stmt s = mk(S_INSTALL_CMP, scope); s.ot = ot; s.fm = cm; sc.stmts.push_back(s); }
+        if (cpy) { Stmt s = mk(S_INSTALL_CPY, scope); s.ot = ot; s.fm = cp; sc.stmts.push_back(s); }
     }
 }
 // all values the forwarder table walks through, per type
@@ -1335,19 +1390,56 @@ static void build_ignored_table() {
     }
 }
 
+// The C comparator / copier adaptors hand every call to the user's C function: every member of the equality-function family x every
+// ordered pair of pool objects (the same object on both sides included) x installed on the root / on the scope; every member of the
+// copy-function family x source object (a pool object, or the receiving buffer itself) x receiving buffer. Own key family
+// custom-type-adaptor:<comparator|copier>:<family member>:<argument relationship>:*.
+static void build_adaptor_table() {
+    for (int ot = 0; ot < 2; ot++) for (int cm = 0; cm < CM_N; cm++) for (int ei = 0; ei < 4; ei++) for (int ai = 0; ai < 4; ai++) for (int scope = 0; scope < 2; scope++) for (int shape = 0; shape < 2; shape++) {
+        Scenario sc;
+        // relationship of the actual object to the objects of the candidate expectations (shape 1 adds a candidate holding object ei+2)
+        bool same = ei == ai || (shape && ((ei + 2) & 3) == ai);
+        sc.key_override = std::string("custom-type-adaptor:comparator:") + CM_NAME[cm] + (same ? ":same-object:" : ":distinct-objects:");
+        add_installs(sc, shape ? scope : 0, true, false, cm);
+        Val e; e.t = V_OBJ; e.ot = ot; e.pi = ei; Val a = e; a.pi = ai;
+        Stmt ex = t_expect(scope, "f"); ex.ps.push_back(in_param("a", e)); ex.hasRet = true; ex.ret = mkint(V_INT, 5); sc.stmts.push_back(ex);
+        if (shape) {
+            // a second candidate expectation for the same function: the matcher has to ask the equality function to tell them apart
+            Val e2 = e; e2.pi = (ei + 2) & 3;
+            Stmt ex2 = t_expect(scope, "f"); ex2.ps.push_back(in_param("a", e2)); ex2.hasRet = true; ex2.ret = mkint(V_INT, 6); sc.stmts.push_back(ex2);
+        }
+        Stmt ac = t_actual(scope, "f"); ac.ps.push_back(in_param("a", a)); ac.getters.push_back(t_getter(L_ACTUAL, G_TYPED, V_INT)); sc.stmts.push_back(ac);
+        sc.stmts.push_back(mk(S_LEFT, scope));
+        T_ADAPT.push_back(sc);
+    }
+    for (int ot = 0; ot < 2; ot++) for (int cp = -1; cp < CP_N; cp++) for (int src = 0; src < 4; src++) for (int buf = 1; buf < 3; buf++) for (int scope = 0; scope < 2; scope++) {
+        // src 0..2: pool objects #0, #2, #3; src 3: the object to return lives in receiving buffer 1
+        int oi = src == 3 ? -2 : src == 0 ? 0 : src + 1;
+        Scenario sc;
+        sc.key_override = std::string("custom-type-adaptor:copier:") + (cp < 0 ? "none" : CP_NAME[cp]) + (oi < 0 && buf == 1 ? ":dst-is-src:" : ":dst-differs:");
+        if (cp >= 0) add_installs(sc, 0, false, true, CM_STRUCT, cp);
+        Stmt ex = t_expect(scope, "f"); Param p; p.name = "o"; p.kind = P_OUT_TYPED; p.ot = ot; p.oi = oi; ex.ps.push_back(p); sc.stmts.push_back(ex);
+        Stmt ac = t_actual(scope, "f"); Param q; q.name = "o"; q.kind = P_OUT_TYPED; q.ot = ot; q.buf = buf; ac.ps.push_back(q); sc.stmts.push_back(ac);
+        T_ADAPT.push_back(sc);
+    }
+}
+
+static void sec_adapt(vf::Ctx& c) { run_scenario(c, T_ADAPT[c.idx]); }
 static void sec_forward(vf::Ctx& c) { run_scenario(c, T_FORWARD[c.idx]); }
 static void sec_data(vf::Ctx& c) { run_scenario(c, T_DATA[c.idx]); }
 static void sec_ignored(vf::Ctx& c) { run_scenario(c, T_IGNORED[c.idx]); }
 
 int main(int argc, char** argv) {
     init_lattice(); init_slots();
-    for (int i = 0; i < 2; i++) { g_cmp[i].eq = EQ[i]; g_cmp[i].str = STR[i]; g_cpy[i].cp = CPY[i]; }
+    for (int i = 0; i < 2; i++) for (int m = 0; m < CM_N; m++) { g_cmp[i][m].eq = EQ[i][m]; g_cmp[i][m].str = STR[i]; }
+    for (int m = 0; m < CP_N; m++) g_cpy[m].cp = CPY[m];
     for (int i = 0; i < 4; i++) g_ptrpool[i] = i;
-    build_forward_table(); build_data_table(); build_ignored_table();
+    build_forward_table(); build_data_table(); build_ignored_table(); build_adaptor_table();
     std::vector<vf::Section> S = {
         { "forwarder_table", T_FORWARD.size(), T_FORWARD.size(), sec_forward, true },
         { "data_store_table", T_DATA.size(), T_DATA.size(), sec_data, true },
         { "support_getters_after_ignored_call", T_IGNORED.size(), T_IGNORED.size(), sec_ignored, true },
+        { "custom_type_adaptor_table", T_ADAPT.size(), T_ADAPT.size(), sec_adapt, true },
         { "random_scenarios", 30000, 600000, sec_random, false },
     };
     return vf::harness_main(argc, argv, S, nullptr);
